@@ -655,14 +655,20 @@ func rangeBoundaryOK(s string) bool {
 	return allDigits(intPart) && (!hasFrac || allDigits(fracPart))
 }
 
+// The boundaries of a range or length part. optsep - blanks, tabs and line
+// breaks (LF or CRLF) - may stand around "|" and "..", and only there: white
+// space inside a boundary ("1 0") is not removed, the boundary is invalid.
+func splitBoundaries(part string) []string {
+	bs := strings.Split(strings.Replace(part, "\r\n", "\n", -1), "..")
+	for i := range bs {
+		bs[i] = strings.Trim(bs[i], " \t\n")
+	}
+	return bs
+}
+
 func (a *RangeArg) Parse() error {
 	str := string(a.arg)
 	ErrInval := errors.New("invalid argument: " + str)
-
-	/* collapse string */
-	str = strings.Replace(str, " ", "", -1)
-	str = strings.Replace(str, "\t", "", -1)
-	str = strings.Replace(str, "\n", "", -1)
 
 	/* range-part *(optsep "|" optsep range-part) */
 	rparts := strings.Split(str, "|")
@@ -670,7 +676,7 @@ func (a *RangeArg) Parse() error {
 	for _, v := range rparts {
 		/* range-boundary [optsep ".." optsep range-boundary] */
 		var r argRb
-		rbs := strings.Split(v, "..")
+		rbs := splitBoundaries(v)
 		switch len(rbs) {
 		case 1:
 			switch rbs[0] {
@@ -730,11 +736,6 @@ func (a *LengthArg) Parse() error {
 	str := string(a.arg)
 	ErrInval := errors.New("invalid argument: " + str)
 
-	/* collapse string */
-	str = strings.Replace(str, " ", "", -1)
-	str = strings.Replace(str, "\t", "", -1)
-	str = strings.Replace(str, "\n", "", -1)
-
 	/* length-part *(optsep "|" optsep length-part) */
 	lparts := strings.Split(str, "|")
 	a.lbs = make([]Lb, 0, len(lparts))
@@ -743,7 +744,7 @@ func (a *LengthArg) Parse() error {
 		var l Lb
 		var i uint64
 		var e error
-		bs := strings.Split(v, "..")
+		bs := splitBoundaries(v)
 		switch len(bs) {
 		case 1:
 			switch bs[0] {
